@@ -88,11 +88,12 @@ def judge_placements(ctx, st, case, pat, rep, S, P, R, obs, atol, label=""):
     if len(ext) != len(sel):
         ctx.fail("%s%d insertions observed for %d replaced matches" % (label, len(ext), len(sel)), witness=w)
         return None
-    b = bound(atol, pat["positions"], rep["positions"])
+    b0 = bound(atol, pat["positions"], rep["positions"])
     ppos = np.asarray(pat["positions"], float)
     rpos = np.asarray(rep["positions"], float).reshape(-1, 3)
     wrapped = 0
     for k, e in zip(sel, ext):
+        b = b0
         m = found[k]
         x_match = np.asarray(obs["found_positions"][k], float)
         q = obs["quats"][k]
@@ -126,6 +127,14 @@ def judge_placements(ctx, st, case, pat, rep, S, P, R, obs, atol, label=""):
         else:
             _, _, _, res, _ = G.kabsch(A, B)
         st.count("placements_judged")
+        # the tolerance is the worst case; what the alignment really has to absorb is how far THIS copy is from an exact image of the
+        # pattern (its optimal-fit residual, zero for an exact copy): the same lever formula on that, three-fold, is the bound used
+        b_atol = b
+        if len(ppos) >= 2:
+            _, _, _, dev, _ = G.kabsch(ppos, x_match)
+            b = min(b_atol, 3 * bound(dev, pat["positions"], rep["positions"]) + 1e-6 * max(1.0, float(np.abs(B).max())))
+            if b < b_atol:
+                st.count("placements_judged_by_the_measured_deviation_of_the_copy")
         if not res <= b:
             # say which atom is off
             Rm, t, _, _, _ = G.kabsch(A, B)
